@@ -98,6 +98,8 @@ class Model(HoloPyObject):
     def _iteritems(self):
         keys = ['_dummy_scatterer', 'theory', '_parameters',
                 '_parameter_names', '_maps']
+        if len(self.constraints) > 0:
+            keys.append('constraints')
         for key in keys:
             item = getattr(self, key)
             if isinstance(item, np.ndarray) and item.ndim == 1:
@@ -115,7 +117,8 @@ class Model(HoloPyObject):
         scatterer = dummy_scatterer.from_parameters(scatterer_parameters)
         theory = fields['theory'].from_parameters(
             read_map(maps['theory'], parameters))
-        kwargs = {'scatterer': scatterer, 'theory': theory}
+        kwargs = {'scatterer': scatterer, 'theory': theory,
+                  'constraints': fields.get('constraints', [])}
         for key in ['optics', 'model']:
             kwargs.update(read_map(maps[key], parameters))
         model = cls(**kwargs)
